@@ -24,6 +24,7 @@ package dst
 //@ ensures arg_unchanged: forall j int :: row(decs)[j] == old(row(decs)[j])
 //@ ensures arg_not_retained: len(decs) == 0 || arr(*d) != arr(decs)
 //@ ensures array_old_or_fresh: arr(*d) == old(arr(*d)) || fresh(arr(*d))
+//@ ensures same_array_never_shrinks: (arr(*d) == old(arr(*d)) && old(cap(*d)) > 0) ==> (off(*d) == old(off(*d)) && len(*d) >= old(len(*d)))
 //@ ensures others_untouched: forall a int :: (a != old(arr(*d)) || old(cap(*d)) == 0) && wasAllocated(a) ==> rowAt(string, a) == old(rowAt(string, a))
 
 //@ func (d *Decorations) Prepend
@@ -34,6 +35,7 @@ package dst
 //@ ensures arg_unchanged: forall j int :: row(decs)[j] == old(row(decs)[j])
 //@ ensures arg_not_retained: len(decs) == 0 || arr(*d) != arr(decs)
 //@ ensures array_old_or_fresh: arr(*d) == old(arr(*d)) || fresh(arr(*d))
+//@ ensures same_array_never_shrinks: (arr(*d) == old(arr(*d)) && old(cap(*d)) > 0) ==> (off(*d) == old(off(*d)) && len(*d) >= old(len(*d)))
 //@ ensures nothing_existing_written: forall a int :: wasAllocated(a) ==> rowAt(string, a) == old(rowAt(string, a))
 
 //@ func (d *Decorations) Replace
@@ -43,12 +45,14 @@ package dst
 //@ ensures arg_unchanged: forall j int :: row(decs)[j] == old(row(decs)[j])
 //@ ensures arg_not_retained: len(decs) == 0 || arr(*d) != arr(decs)
 //@ ensures array_old_or_fresh: arr(*d) == old(arr(*d)) || fresh(arr(*d))
+//@ ensures same_array_never_shrinks: (arr(*d) == old(arr(*d)) && old(cap(*d)) > 0) ==> (off(*d) == old(off(*d)) && len(*d) >= old(len(*d)))
 //@ ensures nothing_existing_written: forall a int :: wasAllocated(a) ==> rowAt(string, a) == old(rowAt(string, a))
 
 //@ func (d *Decorations) Clear
 //@ modifies *d
 //@ ensures is_empty: len(*d) == 0
-//@ ensures array_old_or_none: arr(*d) == old(arr(*d)) || arr(*d) == 0
+//@ ensures same_array_never_shrinks: (arr(*d) == old(arr(*d)) && old(cap(*d)) > 0) ==> (off(*d) == old(off(*d)) && len(*d) >= old(len(*d)))
+//@ ensures storage_dropped: *d == nil
 
 //@ func (d *Decorations) All
 //@ modifies newobjects
